@@ -18,10 +18,13 @@ ASSUMPTIONS = ["NumPy arithmetic", "anchored attributes (path, curr_node, update
 VACUITY = [("credited_rounds", "no reward was ever credited")]
 
 
-def _cfgs():
+def _cfgs(tier="quick"):
     out = []
+    parts = [("Binary", None, "u1"), ("DimensionBinary", None, "u2"), ("Kary", 3, "u1")]
+    if tier == "thorough":
+        parts += [("RandomBinary", None, "u1"), ("RandomKary", 3, "mix2"), ("Kary", 4, "u3")]
     for label, algo, params in configs.all_algo_variants(100):
-        for part, K, box in (("Binary", None, "u1"), ("DimensionBinary", None, "u2"), ("Kary", 3, "u1")):
+        for part, K, box in parts:
             if algo == "VROOM":
                 if configs.arity(part, K, len(configs.BOXES[box])) != 2:
                     continue
@@ -32,7 +35,7 @@ def _cfgs():
 
 def tasks(tier, seed):
     ts = []
-    for label, cfg in _cfgs():
+    for label, cfg in _cfgs(tier):
         vroom = cfg["algo"] == "VROOM"
         wrapper = cfg["algo"] in configs.WRAPPERS
         T = (7 if tier == "quick" else 9)
@@ -41,7 +44,7 @@ def tasks(tier, seed):
         if vroom:
             T = 3 if tier == "quick" else 4
         ts.append({"kind": "algo", "label": "full/%s/%s" % (label, cfg["part"]), "cfg": cfg, "mode": "full", "T": T,
-                   "R": list(configs.R3), "rng_k": 1 if vroom else None})
+                   "R": list(configs.R3), "rng_k": 1 if (vroom or "Random" in cfg["part"] or len(cfg["domain"]) > 2) else None})
         # the same with get_last_point() interposed between pull and receive_reward in at most one (thorough: two) rounds
         ts.append({"kind": "algo", "label": "fullq/%s/%s" % (label, cfg["part"]), "cfg": cfg, "mode": "full", "T": (3 if vroom else 5) if tier == "quick" else (4 if vroom else 7),
                    "R": list(configs.R2), "query_k": 1 if tier == "quick" else 2, "interpose": True})
